@@ -13,9 +13,13 @@ package jsonrpc
 //@ func (*Request).isSane
 //@   trusted
 //@   ensures (result == nil) <==> sane(*r)
+//@ ghost var buildOK bool
+//@ ghost var builtArgs []reflect.Value
 //@ func (*Server).buildArguments
 //@   trusted
 //@   logged
+//@   sets buildOK = (result1 == nil)
+//@   sets builtArgs = result0
 //@ extern func reflect.ValueOf
 //@ extern func reflect.(Value).Call
 //@   logged as Call
@@ -38,10 +42,14 @@ package jsonrpc
 //@   nosafe
 //@   requires s != nil && req != nil && s.methods != nil && s.listener != nil && s.logger != nil
 //@   modifies *
-//@   assigns calls_Call, arg_Call_in, calls_buildArguments, arg_buildArguments_ctx, arg_buildArguments_params, arg_buildArguments_method
+//@   assigns buildOK, builtArgs, calls_Call, arg_Call_in, calls_buildArguments, arg_buildArguments_ctx, arg_buildArguments_params, arg_buildArguments_method
 //@   ensures insane: !old(sane(*req)) ==> result0 == nil && result2 != nil && calls_Call == old(calls_Call)
 //@   ensures sane_no_error: old(sane(*req)) ==> result2 == nil
 //@   ensures unknown_method: old(sane(*req)) && !old(in(s.methods, req.Method)) ==> calls_Call == old(calls_Call) && (result0 != nil ==> result0.Error != nil && result0.Error.Code == -32601)
+//@   ensures invoked_once: old(sane(*req)) && old(in(s.methods, req.Method)) && buildOK ==> calls_Call == old(calls_Call) + 1 && calls_buildArguments == old(calls_buildArguments) + 1
+//@   ensures invoked_with_callers_params: old(sane(*req)) && old(in(s.methods, req.Method)) ==> arg_buildArguments_params == old(req.Params) && arg_buildArguments_method == old(s.methods[req.Method])
+//@   ensures invoked_with_built_args: calls_Call == old(calls_Call) + 1 ==> arg_Call_in == builtArgs
+//@   ensures bad_params: old(sane(*req)) && old(in(s.methods, req.Method)) && !buildOK ==> calls_Call == old(calls_Call) && (result0 != nil ==> result0.Error != nil && result0.Error.Code == -32602)
 //@   ensures at_most_once: calls_Call == old(calls_Call) || calls_Call == old(calls_Call) + 1
 //@   ensures correlated: result0 != nil ==> result0.ID == old(req.ID) && result0.Version == "2.0"
 //@   ensures notification_silent: old(req.ID) == nil && result2 == nil ==> result0 == nil
